@@ -40,22 +40,30 @@ class PolarsSchemaBackend(BaseSchemaBackend):
         sample: Optional[int] = None,
         random_state: Optional[int] = None,
     ):
+        if head is None and tail is None and sample is None:
+            return check_obj
+        # select rows by position so that every selected row is kept exactly
+        # once: duplicated rows in the data are preserved, rows selected by
+        # more than one option are not repeated.
+        row_nr = "__pandera_row_nr__"
+        if hasattr(check_obj, "with_row_index"):
+            indexed = check_obj.with_row_index(row_nr)
+        else:
+            indexed = check_obj.with_row_count(row_nr)
         obj_subsample = []
         if head is not None:
-            obj_subsample.append(check_obj.head(head))
+            obj_subsample.append(indexed.head(head))
         if tail is not None:
-            obj_subsample.append(check_obj.tail(tail))
+            obj_subsample.append(indexed.tail(tail))
         if sample is not None:
             obj_subsample.append(
-                # mypy is detecting a bug https://github.com/unionai-oss/pandera/issues/1912
-                check_obj.sample(  # type:ignore [attr-defined]
-                    sample, random_state=random_state
-                )
+                indexed.collect().sample(n=sample, seed=random_state).lazy()
             )
         return (
-            check_obj
-            if not obj_subsample
-            else pl.concat(obj_subsample).unique()
+            pl.concat(obj_subsample)
+            .unique(subset=row_nr)
+            .sort(row_nr)
+            .drop(row_nr)
         )
 
     def run_check(
